@@ -71,7 +71,7 @@ Proof.
   intros W HI Hal Hc HQ.
   assert (G : grow0 s (with_heap s h')).
   { apply grow0_nostore; cbn [st hp scap g_slots with_heap]; try reflexivity; try lia. exact Hal. }
-  cbn [npost]. split; [|split; [split; [exact G|auto]|exact HQ]].
+  cbn [npost]. split; [|split; [split; [exact G|apply ipge_keep; [exact G|reflexivity]]|exact HQ]].
   apply (wfm_nostore s (with_heap s h') W eq_refl G); cbn [hp with_heap acc g_slots]; auto.
   - apply (w_gbind s W).
   - intros b. destruct (Hc b) as [H|H]; [left; exact H|right; eapply vwf_grow; eassumption].
@@ -161,7 +161,7 @@ Proof.
   intros W H1 H2 H3 El Ek Hv He HQ.
   assert (G : grow0 s (with_store s x)).
   { constructor; cbn [hp st scap g_slots with_store]; auto; try lia; rewrite ?El, ?Ek; auto. }
-  cbn [npost]. split; [|split; [split; [exact G|auto]|exact HQ]].
+  cbn [npost]. split; [|split; [split; [exact G|apply ipge_keep; [exact G|reflexivity]]|exact HQ]].
   apply (wfm_upd s (with_store s x) W G); cbn [hp st acc g_slots with_store]; auto.
   - apply (w_heap s W).
   - apply (w_gbind s W).
